@@ -8,6 +8,7 @@ import (
 	"encoding/hex"
 	"encoding/json"
 	"fmt"
+	"io"
 	"os"
 
 	crypto "github.com/onflow/crypto"
@@ -165,6 +166,9 @@ func (t *tr) hashes(i int, rnd *choice.Src) {
 				d := h.ComputeHash(rnd.Bytes(rnd.Intn(300)))
 				held = append(held, d)
 				t.add(fmt.Sprintf("%s.compute.%d", label, step), d)
+			case 4:
+				// io.WriteString uses a WriteString method when the hasher has one
+				_, _ = io.WriteString(h, string(rnd.Bytes(1+rnd.Intn(150))))
 			default:
 				_, _ = h.Write(rnd.Bytes(1 + rnd.Intn(20)))
 			}
@@ -557,11 +561,24 @@ func (t *tr) bls(i int, rnd *choice.Src) {
 	for k, b := range badpks {
 		_, err := crypto.DecodePublicKey(crypto.BLSBLS12381, b)
 		t.addf(fmt.Sprintf("decode.badpk.%d", k), "%v", err != nil)
+		t.add(fmt.Sprintf("decode.badpk.input-after.%d", k), b) // the caller's buffer after a refused decode
 	}
 	for k, b := range [][]byte{curve.G1NonSubgroup(rnd), curve.G1OffCurve(rnd), curve.G1XTooLarge(rnd), make([]byte, 48)} {
 		if len(pks) > 0 {
 			ok, err := pks[0].Verify(b, msg, h)
 			t.addf(fmt.Sprintf("verify.badsig.%d", k), "%v %v", ok, err)
+			t.add(fmt.Sprintf("verify.badsig.input-after.%d", k), b)
+			// the same key OBJECT and the same bytes on both sides of a SPoCK verification
+			ok, err = crypto.SPOCKVerify(pks[0], b, pks[0], b)
+			t.addf(fmt.Sprintf("spock.same-object.badproof.%d", k), "%v %v", ok, err)
+		}
+	}
+	if len(pks) > 0 && len(sigs) > 0 {
+		if b, err := curve.G1PlusTorsion(sigs[0], i, 1); err == nil {
+			ok, err := crypto.SPOCKVerify(pks[0], b, pks[0], b)
+			t.addf("spock.same-object.torsion", "%v %v", ok, err)
+			ok, err = pks[0].Verify(b, msg, h)
+			t.addf("verify.torsion", "%v %v", ok, err)
 		}
 	}
 	// boundary values of the coordinate and scalar range checks: exactly p, p-1, p+1; r, r-1, r+1
@@ -573,10 +590,13 @@ func (t *tr) bls(i int, rnd *choice.Src) {
 		if len(pks) > 0 {
 			ok, err := pks[0].Verify(g1, msg, h)
 			t.addf(fmt.Sprintf("boundary.g1.verify.%d", k), "%v %v", ok, err != nil)
+			t.add(fmt.Sprintf("boundary.g1.input-after.%d", k), g1)
 		}
 		for c := 0; c < 2; c++ {
-			_, err := crypto.DecodePublicKey(crypto.BLSBLS12381, curve.G2XNearP(d, c))
+			g2b := curve.G2XNearP(d, c)
+			_, err := crypto.DecodePublicKey(crypto.BLSBLS12381, g2b)
 			t.addf(fmt.Sprintf("boundary.g2.decode.%d.%d", k, c), "%v", err != nil)
+			t.add(fmt.Sprintf("boundary.g2.input-after.%d.%d", k, c), g2b)
 		}
 		_, err = crypto.DecodePrivateKey(crypto.BLSBLS12381, curve.ScalarNearR(d))
 		t.addf(fmt.Sprintf("boundary.sk.decode.%d", k), "%v", err != nil)
